@@ -702,6 +702,11 @@ var foldDepth int
 
 // FoldFunc is FoldPredicate with given values for (some) parameters, by position.
 func FoldFunc(fn *ssa.Function, fields map[string]int64, params map[int]int64) (res int64, ok bool) {
+	return FoldFuncLens(fn, fields, params, nil)
+}
+
+// FoldFuncLens is FoldFunc with given lengths for (some) slice parameters, by position: len(param) folds.
+func FoldFuncLens(fn *ssa.Function, fields map[string]int64, params map[int]int64, lens map[int]int64) (res int64, ok bool) {
 	if fn == nil || len(fn.Blocks) == 0 {
 		return 0, false
 	}
@@ -863,6 +868,21 @@ func FoldFunc(fn *ssa.Function, fields map[string]int64, params map[int]int64) (
 				}
 				return get(x.Results[0])
 			case *ssa.Call:
+				if bi, isB := x.Call.Value.(*ssa.Builtin); isB && bi.Name() == "len" && len(x.Call.Args) == 1 {
+					found := false
+					for i, pr := range fn.Params {
+						if ssa.Value(pr) == x.Call.Args[0] {
+							if l, okl := lens[i]; okl {
+								val[x] = l
+								found = true
+							}
+						}
+					}
+					if !found {
+						return 0, false
+					}
+					continue
+				}
 				// a tiny pure helper of the same package with foldable arguments
 				g := x.Call.StaticCallee()
 				if g == nil || g.Pkg != fn.Pkg || foldDepth > 2 {
